@@ -9,7 +9,15 @@
 
 struct Rng {
 	uint64_t s;
-	explicit Rng(uint64_t seed = 0) : s(seed) {}
+	// The seed is scrambled: with the raw seed as the state, the streams of seeds k and k+1
+	// (as used by "seed * gamma + tag") would be the same sequence shifted by one draw.
+	explicit Rng(uint64_t seed = 0)
+	{
+		uint64_t z = seed + 0x632BE59BD9B4E019ull;
+		z = (z ^ (z >> 30)) * 0xBF58476D1CE4E5B9ull;
+		z = (z ^ (z >> 27)) * 0x94D049BB133111EBull;
+		s = z ^ (z >> 31);
+	}
 	uint64_t next() {			// SplitMix64
 		uint64_t z = (s += 0x9E3779B97F4A7C15ull);
 		z = (z ^ (z >> 30)) * 0xBF58476D1CE4E5B9ull;
